@@ -208,7 +208,18 @@ func (x *X) eval(env *Env, e ast.Expr) TV {
 			x.noOblig--
 			return TV{S{r, SStr}, base.T}
 		}
-		panic("contract: slicing is only supported on strings")
+		if sl, ok := base.V.(Slice); ok && kindOf(base.T) == kSlice && e.Max == nil {
+			// s[lo:hi] on a slice: same backing array, shifted offset (as the SSA Slice instruction)
+			lo, hi := "0", sl.Len
+			if e.Low != nil {
+				lo = x.eval(env, e.Low).V.(S).T
+			}
+			if e.High != nil {
+				hi = x.eval(env, e.High).V.(S).T
+			}
+			return TV{Slice{Arr: sl.Arr, Off: "(+ " + sl.Off + " " + lo + ")", Len: "(- " + hi + " " + lo + ")", Cap: "(- " + sl.Cap + " " + lo + ")"}, base.T}
+		}
+		panic("contract: slicing is only supported on strings and slices")
 	case *ast.TypeAssertExpr:
 		base := x.eval(env, e.X)
 		t := x.resolveType(env.pkg, types.ExprString(e.Type))
